@@ -285,6 +285,8 @@ class ConstEval:
                 c[key] = old + (1 if op == "++" else -1)
                 return old if e.get("isPostfix") else c[key]
             v = self.expr(ch[0], env)
+            if op in ("*", "&") and isinstance(v, Obj):
+                return v            # `*this` / `&obj` handed to a helper: objects are passed by identity
             if op == "!":
                 return not self._truth(v)
             if op == "-":
